@@ -54,6 +54,7 @@ thread_local! {
     static FAULT: RefCell<Option<(String, u64)>> = RefCell::new(None);
     static FAULT_HIT: RefCell<bool> = RefCell::new(false);
     static TXLOG: RefCell<Vec<String>> = RefCell::new(vec![]);
+    static MSGLOG: RefCell<Vec<(String, String)>> = RefCell::new(vec![]);
 }
 
 fn variant_of(msg: &[u8]) -> String {
@@ -110,6 +111,11 @@ pub fn disarm_fault() -> bool {
 fn tx_begin() {
     TXCOUNT.with(|c| c.borrow_mut().clear());
     TXLOG.with(|c| c.borrow_mut().clear());
+    MSGLOG.with(|c| c.borrow_mut().clear());
+}
+/// execute messages (contract name, JSON) delivered during the last transaction, in order
+pub fn msg_log() -> Vec<(String, String)> {
+    MSGLOG.with(|c| c.borrow().clone())
 }
 
 struct Wrapped {
@@ -118,6 +124,7 @@ struct Wrapped {
 }
 impl Contract<Empty> for Wrapped {
     fn execute(&self, deps: DepsMut, env: Env, info: MessageInfo, msg: Vec<u8>) -> AnyResult<Response> {
+        MSGLOG.with(|l| l.borrow_mut().push((self.name.to_string(), String::from_utf8_lossy(&msg).to_string())));
         note(self.name, "execute", &variant_of(&msg))?;
         self.inner.execute(deps, env, info, msg)
     }
@@ -339,6 +346,26 @@ pub struct Tx {
     pub ok: bool,
     pub err: String,
     pub log: Vec<String>,
+    /// (event type, key, value) of every attribute of a successful transaction
+    pub attrs: Vec<(String, String, String)>,
+    pub msgs: Vec<(String, String)>,
+}
+impl Tx {
+    pub fn attr(&self, key: &str) -> Option<String> {
+        self.attrs.iter().find(|(_, k, _)| k == key).map(|(_, _, v)| v.clone())
+    }
+    pub fn msgs_to(&self, contract: &str) -> Vec<serde_json::Value> {
+        self.msgs.iter().filter(|(n, _)| n == contract).filter_map(|(_, m)| serde_json::from_str(m).ok()).collect()
+    }
+}
+fn attrs_of(r: &AppResponse) -> Vec<(String, String, String)> {
+    let mut v = vec![];
+    for e in &r.events {
+        for a in &e.attributes {
+            v.push((e.ty.clone(), a.key.clone(), a.value.clone()));
+        }
+    }
+    v
 }
 
 pub struct World {
@@ -548,12 +575,11 @@ impl World {
         tx_begin();
         let app = &mut self.app;
         let r = symrt::catch(|| app.execute_contract(addr(who), to.clone(), msg, funds));
-        let tx = match r {
-            Ok(Ok(_)) => Tx { ok: true, err: String::new(), log: tx_log() },
-            Ok(Err(e)) => Tx { ok: false, err: format!("{}", e.root_cause()), log: tx_log() },
-            Err(p) => Tx { ok: false, err: p, log: tx_log() },
-        };
-        tx
+        match r {
+            Ok(Ok(resp)) => Tx { ok: true, err: String::new(), log: tx_log(), attrs: attrs_of(&resp), msgs: msg_log() },
+            Ok(Err(e)) => Tx { ok: false, err: format!("{}", e.root_cause()), log: tx_log(), attrs: vec![], msgs: msg_log() },
+            Err(p) => Tx { ok: false, err: p, log: tx_log(), attrs: vec![], msgs: msg_log() },
+        }
     }
     fn funds(&self, f: Option<Uint128>) -> Vec<Coin> {
         match f {
@@ -676,9 +702,9 @@ impl World {
                 let to = to.to_string();
                 let r = symrt::catch(|| app.execute(addr(from), cosmwasm_std::CosmosMsg::Bank(BankMsg::Send { to_address: to, amount: vec![Coin { denom: DENOM.into(), amount }] })));
                 match r {
-                    Ok(Ok(_)) => Tx { ok: true, err: String::new(), log: vec![] },
-                    Ok(Err(e)) => Tx { ok: false, err: format!("{}", e.root_cause()), log: vec![] },
-                    Err(p) => Tx { ok: false, err: p, log: vec![] },
+                    Ok(Ok(_)) => Tx { ok: true, err: String::new(), log: vec![], attrs: vec![], msgs: vec![] },
+                    Ok(Err(e)) => Tx { ok: false, err: format!("{}", e.root_cause()), log: vec![], attrs: vec![], msgs: vec![] },
+                    Err(p) => Tx { ok: false, err: p, log: vec![], attrs: vec![], msgs: vec![] },
                 }
             }
         };
